@@ -146,7 +146,8 @@ Proof. vm_compute. reflexivity. Qed.
 (* ================= budget and outcome ================= *)
 
 (* at most three sends to the registry and one token fetch, for every server
-   behaviour; and every outcome has one of the listed causes *)
+   behaviour including sends that fail (transport error, cancelled context: AErr);
+   every outcome has one of the listed causes; a failed send is the last one *)
 Theorem C16_budget :
   forall clean cf c rq script,
     let '(evs, c', r) := do_request clean cf c rq script in
@@ -164,6 +165,7 @@ Theorem C16_valid_credentials_succeed :
     rq_body rq <> BOnce ->
     r <> RErr ENoCred -> r <> RErr EMissing ->
     (forall s, ~ In (s, AFail) evs) ->
+    (forall s, ~ In (s, AErr) evs) ->
     (forall h a hdr, ~ In (SReg h a true, A401 hdr) evs) ->
     (forall s hdr ps, In (s, A401 hdr) evs -> parse_challenge hdr <> Ch SchUnknown ps) ->
     r = RResp false /\ (reg_sends evs <= 3)%nat /\ (fetches evs <= 1)%nat /\
@@ -253,8 +255,10 @@ Theorem C16_set_shared_result :
 Proof. exact shared_set_result_same_key. Qed.
 Print Assumptions C16_set_shared_result.
 
-(* with constant-function calls in the mix (the host-only follow-up Set of the
-   single-context cache) the statement holds for every key on which only real
+(* Since fix b278d84 the host-only follow-up of the single-context cache is a plain
+   store, so every Set call is a real fetch and C16_set_shared_result covers the
+   single-context cache too.  Before it, the follow-up was a Set call with a
+   constant function; then the statement holds for every key on which only real
    fetches run -- every key but the empty scope key *)
 Theorem C16_set_shared_result_partial :
   forall calls K, (forall g, ck (calls g) = K -> csrc (calls g) = None) ->
@@ -273,8 +277,8 @@ Theorem C16_single_cache_set_prefix_refuted :
 Proof. exact fallback_prefix_refuted. Qed.
 Print Assumptions C16_single_cache_set_prefix_refuted.
 
-(* known finding (current code): with the EMPTY scope key the first call of the
-   single-context cache shares its status key with follow-up calls *)
+(* before fix b278d84: with the EMPTY scope key the first call of the
+   single-context cache shared its status key with follow-up calls *)
 Theorem C16_single_cache_empty_key_refuted :
   let calls := table_calls [(1, mkCall kx None); (2, mkCall k0 (Some 1)); (3, mkCall k0 None)] in
   exists tr st, crun calls cinit tr = Some st /\
@@ -288,3 +292,43 @@ Example C16_set_share_example :
     [CLoad 1; COnce 1 (OAcquire 1); CLoad 2; COnce 1 (ODone 1 1); COnce 2 (OReadClosed 2 1); CDelete 1] = Some st /\
     nget (results st) 1 = Some 1 /\ nget (results st) 2 = Some 1.
 Proof. exact set_share_example. Qed.
+
+(* a recorded concurrent execution that the extracted acceptor accepts (with the
+   observed in-flight entries) is a run of the system; with real fetches only,
+   every delivered token was fetched for the same (registry, scheme, scope key) *)
+Theorem C16_set_accepted_trace :
+  forall tbl tr, set_accepts tbl tr = true ->
+    (forall g, csrc (table_calls tbl g) = None) ->
+    exists st, crun (table_calls tbl) cinit (map fst tr) = Some st /\
+      forall g v, nget (results st) g = Some v -> ck (table_calls tbl v) = ck (table_calls tbl g).
+Proof. exact accepted_trace_same_key. Qed.
+Print Assumptions C16_set_accepted_trace.
+
+(* ================= failed sends: transport errors, cancellation ================= *)
+
+(* for every server behaviour in which sends may get no response (AErr): nothing is
+   sent after such a send (so no secret leaves after a cancellation), and a token
+   fetch that failed or was cancelled leaves the cache exactly as it was *)
+Theorem C16_failed_sends :
+  forall clean cf c rq script,
+    let '(evs, c', r) := do_request clean cf c rq script in
+    stops_after_failure evs /\
+    ((exists s, last evs no_event = (s, AErr) /\ is_reg (s, AErr) = false) -> c' = c) /\
+    ((exists s, last evs no_event = (s, AFail) /\ is_reg (s, AFail) = false) -> c' = c).
+Proof. exact do_request_failures. Qed.
+Print Assumptions C16_failed_sends.
+
+Example C16_failed_send_example :
+  let creds := [(0, mkCred true true false false)] in
+  let ch0 := b "Bearer realm=""https://auth.example/token"",service=""svc0"",scope=""repository:a:pull""" in
+  map (fun o => (map fst (fst o), snd o))
+    (run_model FShared false creds
+       [ (mkReq 0 [] [] BNone, [A401 ch0; AErr; AOk]);          (* the token request is cancelled *)
+         (mkReq 0 [] [] BNone, [A401 ch0; ATok 9; AOk]) ])      (* nothing was cached: full flow again *)
+  = [ ([SReg 0 NoAuth false;
+        SDist 0 (b "https://auth.example/token") (b "svc0") [b "repository:a:pull"] (Some (SUserPass 0))],
+       RErr ETransport);
+      ([SReg 0 NoAuth false;
+        SDist 0 (b "https://auth.example/token") (b "svc0") [b "repository:a:pull"] (Some (SUserPass 0));
+        SReg 0 (ABearer (SIssued 0 9)) true], RResp false) ].
+Proof. vm_compute. reflexivity. Qed.
